@@ -62,12 +62,14 @@ def gen_scenario(rng, k, generated=True):
 def validate_jobs(sc, d, modes, entries):
     """returns list of (label, coq_mode, job)"""
     files = {}
-    for i, r in enumerate(sc['rules']):
-        files['r%d.guard' % i] = r
+    # every other scenario keeps its rules files under ONE base name in different directories
+    same = sum(map(ord, d)) % 2 == 1
+    rnames = [('pol/d%d/r.guard' % i) if same else ('r%d.guard' % i) for i in range(len(sc['rules']))]
+    for nme, r in zip(rnames, sc['rules']):
+        files[nme] = r
     for i, t in enumerate(sc['docs']):
         files['d%d.%s' % (i, 'json' if t.lstrip().startswith('{') else 'yaml')] = t
     e2e.write_files(d, files)
-    rnames = ['r%d.guard' % i for i in range(len(sc['rules']))]
     dnames = [n for n in sorted(files) if n.startswith('d')]
     dnames.sort(key=lambda n: int(n[1:].split('.')[0]))
     out = []
